@@ -13,7 +13,7 @@ def check(ctx, rep):
         "the handlers is bounded by shutdown_timeout (None = unbounded) and what is still pending is "
         "cancelled and awaited. R13.5 every return of the broadcast is the boolean `nothing had to be "
         "cancelled`. R13.6 = R11.2: a cancelled nested run has tidied its jobs before its parent shuts down. "
-        "R13.7 the synchronous shutdown() returns the value of driving co_shutdown() once, unprotected. R13.8 `shutdown_timeout` is what the caller gave. R13.9 a coroutine-based job awaits the shutdown coroutine it was given, guarded by nothing but its presence. R13.10 (= R08.1) the deadline helper that bounds the shutdown phase gives no deadline only for None: shutdown_timeout=0 is a bound. R13.11 the default of `shutdown_timeout` is a positive bound in every scheduler constructor.")
+        "R13.7 the synchronous shutdown() returns the value of driving co_shutdown() once, unprotected. R13.8 `shutdown_timeout` is what the caller gave. R13.9 a coroutine-based job awaits the shutdown coroutine it was given, guarded by nothing but its presence. R13.10 (= R08.1) the deadline helper that bounds the shutdown phase gives no deadline only for None: shutdown_timeout=0 is a bound. R13.11 the default of `shutdown_timeout` is a positive bound in every scheduler constructor. R13.12 the tasks the broadcast makes for the shutdown handlers carry no job back-pointer: none of the calls that pass them on reaches code that reads it (which would raise before the stragglers are cancelled). R13.13 the helper that records the deadline of a phase stores it on every path (None included): the shutdown phase never inherits the deadline of the run.")
     rep.declined = ["handler durations"]
     rep.trusted = ["T1", "T2", "T8"]
     runrules.exit_discipline(ctx, rep, "R13.1", "R13.1", "R13.1", shut_even_unstarted=True)
@@ -26,3 +26,5 @@ def check(ctx, rep):
     shutrules.user_shutdown_unconditional(ctx, rep, "R13.9")
     runrules.deadline(ctx, rep, "R13.10", "R13.10")
     predicates.shutdown_bounded_by_default(ctx, rep, "R13.11")
+    shutrules.handler_tasks_carry_no_job(ctx, rep, "R13.12")
+    runrules.deadline_always_stored(ctx, rep, "R13.13")
